@@ -21,6 +21,92 @@ END_NAMES = {"html", "head", "body", "li", "dt", "dd", "p", "rt", "rp", "optgrou
              "thead", "tbody", "tfoot", "tr", "td", "th"}
 
 
+P_FOLLOW = {"address", "article", "aside", "blockquote", "details", "div", "dl", "fieldset", "figcaption", "figure", "footer",
+            "form", "h1", "h2", "h3", "h4", "h5", "h6", "header", "hgroup", "hr", "main", "menu", "nav", "ol", "p", "pre",
+            "section", "table", "ul"}
+P_PARENTS_NO = {"a", "audio", "del", "ins", "map", "noscript", "video"}
+
+
+def _ty(x):
+    return x["type"] if x else None
+
+
+def _start_in(x, names):
+    return bool(x) and x["type"] in ("StartTag", "EmptyTag") and x["name"] in names
+
+
+def _no_more(x):
+    return x is None or x["type"] == "EndTag"
+
+
+def spec_end(n, x):
+    """HTML syntax (2020), 'optional tags': may the end tag of n be omitted before x?  -> (allowed, known-deviation class)"""
+    sc = _ty(x) in ("Comment", "SpaceCharacters")
+    if n in ("html", "body"):
+        return _ty(x) != "Comment"
+    if n == "head":
+        return not sc
+    if n == "li":
+        return _start_in(x, {"li"}) or _no_more(x)
+    if n == "dt":
+        return _start_in(x, {"dt", "dd"})
+    if n == "dd":
+        return _start_in(x, {"dd", "dt"}) or _no_more(x)
+    if n == "p":
+        return _start_in(x, P_FOLLOW) or (_no_more(x) and not (x and x["name"] in P_PARENTS_NO))
+    if n in ("rt", "rp"):
+        return _start_in(x, {"rt", "rp"}) or _no_more(x)
+    if n == "optgroup":
+        return _start_in(x, {"optgroup"}) or _no_more(x)
+    if n == "option":
+        return _start_in(x, {"option", "optgroup"}) or _no_more(x)
+    if n in ("colgroup", "caption"):
+        return not sc
+    if n == "thead":
+        return _start_in(x, {"tbody", "tfoot"})
+    if n == "tbody":
+        return _start_in(x, {"tbody", "tfoot"}) or _no_more(x)
+    if n == "tfoot":
+        return _no_more(x)
+    if n == "tr":
+        return _start_in(x, {"tr"}) or _no_more(x)
+    if n in ("td", "th"):
+        return _start_in(x, {"td", "th"}) or _no_more(x)
+    return False
+
+
+def dev_end(n, x):
+    if n == "p" and _start_in(x, {"datagrid", "dialog", "dir"}):
+        return "p-end-before-datagrid-dialog-dir"
+    if n == "p" and x and x["type"] == "EndTag" and x["name"] in P_PARENTS_NO:
+        return "p-end-omitted-before-end-of-a-like-parent"
+    if n == "tfoot" and x and x["type"] == "StartTag" and x["name"] == "tbody":
+        return "tfoot-end-before-tbody"
+    return None
+
+
+def spec_start(n, x):
+    sc = _ty(x) in ("Comment", "SpaceCharacters")
+    if n == "html":
+        return _ty(x) != "Comment"
+    if n == "head":
+        return _ty(x) in ("StartTag", "EmptyTag") or _no_more(x)
+    if n == "body":
+        return _no_more(x) or (not sc and not _start_in(x, {"meta", "link", "script", "style", "template"}))
+    if n == "colgroup":
+        return _start_in(x, {"col"})
+    if n == "tbody":
+        return _start_in(x, {"tr"})
+    return False
+
+
+def dev_start(n, x):
+    if n == "body" and x and ((x["type"] == "StartTag" and x["name"] in ("meta", "link", "template")) or
+                              (x["type"] == "EmptyTag" and x["name"] in ("meta", "link", "script", "style", "template"))):
+        return "body-start-omitted-before-meta-link-script-style-template"
+    return None
+
+
 def real_filter(toks):
     from html5lib.filters.optionaltags import Filter
     return list(Filter(toks))
@@ -51,7 +137,8 @@ def run(ctx):
     from html5lib.filters.optionaltags import Filter
     names = sorted(set(gen.literals_in(SOURCES[0])) - {"StartTag", "EndTag", "EmptyTag", "Comment", "SpaceCharacters",
                                                        "Characters", "type", "name", "data"})
-    fresh = ["m", "h", "ht", "", "zz", "HTML", "html5", "ahtml", "svg", "t"]
+    fresh = ["m", "h", "ht", "", "zz", "HTML", "html5", "ahtml", "svg", "t", "a", "audio", "del", "ins", "map", "noscript",
+             "video", "meta", "link", "template", "details", "figure", "main", "hgroup", "figcaption", "caption"]
     pool = names + fresh
     f = Filter([])
 
@@ -82,6 +169,11 @@ def run(ctx):
             except Exception as e:
                 reals.append(wire.exc_tag(e))
             ctx.case("fn:isOptionalEnd", reqs[-1], nontrivial=tag in END_NAMES)
+            # oracle: position clause — omissible only where the HTML syntax allows it
+            if reals[-1] == "ok 1" and not spec_end(tag, nx):
+                ctx.fail(dev_end(tag, nx) or "end-tag-position:%s:%s:%s" % (tag, _ty(nx), nx and nx.get("name")),
+                         "is_optional_end allows an omission the HTML syntax does not allow in that position",
+                         {"tagname": tag, "next": repr(nx)})
             # oracle: the rule functions say "omissible" only for the allowed names
             if reals[-1] == "ok 1" and tag not in END_NAMES:
                 ctx.fail("end-tag-omitted:%s" % tag, "is_optional_end true for a name outside the allowed list",
@@ -90,6 +182,10 @@ def run(ctx):
         for nx in nexts:
             for pv in prevs[:3]:
                 try:
+                    if f.is_optional_start(tag, pv, nx) and tag in START_NAMES and not spec_start(tag, nx):
+                        ctx.fail(dev_start(tag, nx) or "start-tag-position:%s:%s:%s" % (tag, _ty(nx), nx and nx.get("name")),
+                                 "is_optional_start allows an omission the HTML syntax does not allow in that position",
+                                 {"tagname": tag, "previous": repr(pv), "next": repr(nx)})
                     if f.is_optional_start(tag, pv, nx) and tag not in START_NAMES:
                         ctx.fail("start-tag-omitted:%s" % tag, "is_optional_start true for a name outside the allowed list",
                                  {"tagname": tag, "previous": repr(pv), "next": repr(nx)})
